@@ -10,6 +10,7 @@
  * carry variadic arguments.  glibc renames scanf to __isoc99_scanf. */
 typedef struct _IO_FILE FILE; typedef int int_t;
 #include "mt_types.h"
+void *malloc(unsigned long);
 extern int in_m, in_n, in_nonz, in_cnt[CAP], in_row[NZC]; extern double in_val[NZC]; extern char in_title[TLENC];
 extern @T@ in_a[NZC]; extern int_t in_asub[NZC], in_xa[CAP + 1];
 int g_col, g_ent, g_getc, g_hdr, g_alloc_n, g_alloc_nnz;
@@ -31,4 +32,7 @@ int fprintf(FILE *fp, const char *f, ...) { return 0; }
 void @p@allocateA(int_t n, int_t nnz, @T@ **a, int_t **asub, int_t **xa) {
   __CPROVER_assert(0 <= nnz && nnz <= NZC && 0 <= n && n <= CAP, "allocateA: request within the capacity of the proof");
   g_alloc_n = n; g_alloc_nnz = nnz; *a = in_a; *asub = in_asub; *xa = in_xa;
+  /* tool workaround (goto-instrument 6.11, legacy contracts): without any heap allocation in the program the instrumentation
+   * rejects the transformed dumptitle loop ("Loops remain in function"); one unused allocation keeps it on the working path */
+  { void *unused = malloc(1); (void)unused; }
 }
